@@ -237,8 +237,21 @@ edge cases, error cases - compare exception type and message) on the unmodified 
 Verify for each: (a) patch applies to clean HEAD with `git apply --check`, (b) suite result identical to baseline, (c) your
 comparison shows no difference. Finish with `git checkout -- .` (only `_out/` and `_task.md` untracked). Final message: 3 lines per patch.
 '''
-if style == '5':
+if style in ('5', '6'):
     BREAK, REFAC = BREAK5, REFAC5
+if style == '6':
+    # round 6: the refactorings go where the newest rules look
+    REFAC = REFAC5.replace('''refactor1, refactor2, refactor3 concern the code of the FIRST behaviour''', '''Wherever the two behaviours reach them, prefer these places (they are rarely touched by clean-ups, which is why they are worth
+tidying): constructors and their defaults (instance defaults moved to class attributes or the reverse, keyword-only parameters,
+default values spelled differently but equal), registration methods that only record their arguments (AddExogenous,
+AddInitialCondition, RegisterCashFlow, AddGlobalEquation, _RegisterAlias), small predicates and helpers in `utils.py`
+(is_local_variable, list_tokens, replace_token..., Logger and its log registration), error handling (try / except / finally blocks,
+which exceptions are caught and re-raised), `Model.main`, `Model.GetTimeSeries`, `Model._FitIntoCurrencyZone` / `_AddCountry`,
+`Equation.__init__` / `Term.__init__` (how text is split and tokens are classified), the loops in
+`EquationSolver.SetInitialConditions` and `CalculateInitialSteadyState`, `ExternalSector` / `InternationalGold` in `external.py`,
+the base class of the book builders in `gl_book/__init__.py`, `MoneyMarket` / `DepositMarket` / `TaxFlow._GenerateEquations`.
+
+refactor1, refactor2, refactor3 concern the code of the FIRST behaviour''')
 ids = ['C%02d' % i for i in range(1, 21)]
 first, second = ids[:10], ids[10:]
 pairs = [(first[i], second[(i + off) % 10]) for i in range(10)]
